@@ -957,3 +957,201 @@ Theorem queue_wrappers_correct : forall ins, Forall fresh_line ins ->
 Proof.
   intros ins F. rewrite (asm_run_ext _ _ queue_step_generic). apply run_wrappers; [apply buf_fresh_init|exact F].
 Qed.
+
+(* the two specifications together, on well-formed schedules *)
+Lemma events_schedule : forall s (outs : list (list ais_sentence)) spec,
+  map (map delivery_of) outs = spec ->
+  events (schedule_lines s) (map has_delivery outs) = schedule_events s spec.
+Proof.
+  induction s as [|i s IH]; intros outs spec H; [reflexivity|].
+  destruct outs as [|o outs]; simpl in H; subst spec; [reflexivity|].
+  simpl. rewrite (IH outs _ eq_refl). f_equal.
+  destruct o; simpl; [|reflexivity]. destruct i; reflexivity.
+Qed.
+
+Lemma schedule_fresh : forall s, (forall f, In (IFrag f) s -> a_wrapper (sf_sent f) = None) ->
+  Forall fresh_line (schedule_lines s).
+Proof.
+  induction s as [|i s IH]; intro H; [constructor|]. simpl. constructor.
+  - destruct i; simpl; auto. apply H. left. reflexivity.
+  - apply IH. intros f Hf. apply H. right. exact Hf.
+Qed.
+
+Theorem stream_schedule_correct : forall s, WF s -> (forall f, In (IFrag f) s -> a_wrapper (sf_sent f) = None) ->
+  exists outs st, asm_run stream_step asm_init (schedule_lines s) = (outs, Ok st) /\
+                  map (map delivery_of) outs = spec_deliveries s /\
+                  map (map a_wrapper) outs = spec_wrapper (schedule_events s (spec_deliveries s)).
+Proof.
+  intros s W F. destruct (stream_deliveries_correct s W) as [outs [st [E1 E2]]].
+  exists outs, st. split; [exact E1|]. split; [exact E2|].
+  assert (H := stream_wrappers_correct _ (schedule_fresh s F)). rewrite E1 in H. simpl in H.
+  rewrite H. rewrite (events_schedule s outs _ E2). reflexivity.
+Qed.
+
+Theorem queue_schedule_correct : forall s, WF s -> (forall f, In (IFrag f) s -> a_wrapper (sf_sent f) = None) ->
+  exists outs st, asm_run queue_step asm_init (schedule_lines s) = (outs, Ok st) /\
+                  map (map delivery_of) outs = spec_deliveries s /\
+                  map (map a_wrapper) outs = spec_wrapper (schedule_events s (spec_deliveries s)).
+Proof.
+  intros s W F. destruct (queue_deliveries_correct s W) as [outs [st [E1 E2]]].
+  exists outs, st. split; [exact E1|]. split; [exact E2|].
+  assert (H := queue_wrappers_correct _ (schedule_fresh s F)). rewrite E1 in H. simpl in H.
+  rewrite H. rewrite (events_schedule s outs _ E2). reflexivity.
+Qed.
+
+(* ================================================================ C03: slot independence, singles *)
+
+Lemma buffer_step_other_slots : forall buf msg buf' o s, buffer_step buf msg = Ok (buf', o) ->
+  s <> slot_of msg -> buf_get buf' s = buf_get buf s.
+Proof.
+  intros buf msg buf' o s H Hn. unfold buffer_step in H.
+  set (slot := slot_of msg) in *.
+  set (buffer1 := if negb (buf_mem buf slot) then buf_set buf slot (py_repeat None (Z.max (a_frag_cnt msg) 255)) else buf) in *.
+  assert (K : buf_get buffer1 s = buf_get buf s).
+  { unfold buffer1. destruct (negb (buf_mem buf slot)); [|reflexivity]. apply buf_get_set_other. exact Hn. }
+  destruct (buf_get buffer1 slot) as [arr|]; [|discriminate].
+  destruct (py_setitem arr (a_frag_num msg - 1) (Some msg)) as [arr'|e]; [|discriminate].
+  destruct (py_len (not_none (py_slice arr' 0 (a_frag_cnt msg))) =? a_frag_cnt msg).
+  - destruct (assemble_from_iterable _); [|discriminate]. inversion H; subst.
+    rewrite buf_get_del_other, buf_get_set_other by exact Hn. exact K.
+  - inversion H; subst. rewrite buf_get_set_other by exact Hn. exact K.
+Qed.
+
+(* a step only touches the slot of the arriving fragment; every other line leaves the whole buffer alone *)
+Lemma generic_slot_independence : forall hs buf w p t st' out s,
+  generic_step hs (buf, w) p t = Ok (st', out) ->
+  (forall a, p = Ok (SAis a) -> s <> slot_of a) ->
+  buf_get (fst st') s = buf_get buf s.
+Proof.
+  intros hs buf w p t st' out s H Hs. unfold generic_step in H.
+  destruct p as [x|e]; [|destruct (catches hs e); inversion H; reflexivity].
+  destruct t as [e|]; [destruct (catches hs e); inversion H; reflexivity|].
+  destruct x as [msg|g]; [|inversion H; reflexivity].
+  unfold ais_step in H. destruct (is_single msg); [inversion H; reflexivity|].
+  destruct (buffer_step buf msg) as [[buf' o]|e] eqn:E; [|discriminate].
+  assert (K := buffer_step_other_slots _ _ _ _ s E (Hs msg eq_refl)).
+  destruct o; inversion H; subst; exact K.
+Qed.
+
+Theorem stream_slot_independence : forall buf w p t st' out s,
+  stream_step (buf, w) p t = Ok (st', out) -> (forall a, p = Ok (SAis a) -> s <> slot_of a) ->
+  buf_get (fst st') s = buf_get buf s.
+Proof. intros until s. rewrite stream_step_generic. apply generic_slot_independence. Qed.
+
+Theorem queue_slot_independence : forall buf w p t st' out s,
+  queue_step (buf, w) p t = Ok (st', out) -> (forall a, p = Ok (SAis a) -> s <> slot_of a) ->
+  buf_get (fst st') s = buf_get buf s.
+Proof. intros until s. rewrite queue_step_generic. apply generic_slot_independence. Qed.
+
+Theorem singles_immediate : forall buf w a, is_single a = true ->
+  stream_step (buf, w) (Ok (SAis a)) None = Ok ((buf, None), [attach w a]) /\
+  queue_step (buf, w) (Ok (SAis a)) None = Ok ((buf, None), [attach w a]).
+Proof.
+  intros buf w a H. rewrite stream_step_generic, queue_step_generic. unfold generic_step, ais_step. rewrite H. auto.
+Qed.
+
+(* skipped lines are no-ops (used by C05c) *)
+Theorem stream_skip_noop : forall st e t, catches stream_except e = true -> stream_step st (Raise e) t = Ok (st, []).
+Proof. intros st e t H. rewrite stream_step_generic. unfold generic_step. rewrite H. reflexivity. Qed.
+
+Theorem queue_skip_noop : forall st e t, catches queue_except e = true -> queue_step st (Raise e) t = Ok (st, []).
+Proof. intros st e t H. rewrite queue_step_generic. unfold generic_step. rewrite H. reflexivity. Qed.
+
+(* ================================================================ C07: the two loops agree *)
+
+(* the try block raised IndexError: the only exception the queue's tuple catches and the stream's does not *)
+Definition try_index_error (p : M sentence) (t : option exn) : bool :=
+  match p with
+  | Raise (Py IndexError) => true
+  | Ok _ => match t with Some (Py IndexError) => true | _ => false end
+  | _ => false
+  end.
+
+Theorem queue_step_eq : forall st p t,
+  queue_step st p t = if try_index_error p t then Ok (st, []) else stream_step st p t.
+Proof.
+  intros st p t. rewrite queue_step_generic, stream_step_generic. unfold generic_step, try_index_error.
+  destruct p as [s|[l|y]].
+  - destruct t as [[l|y]|]; [destruct l; reflexivity|destruct y; reflexivity|reflexivity].
+  - destruct l; reflexivity.
+  - destruct y; reflexivity.
+Qed.
+
+Corollary stream_ok_queue_ok : forall st p t r, stream_step st p t = Ok r -> queue_step st p t = Ok r.
+Proof.
+  intros st p t r H. rewrite queue_step_eq. destruct (try_index_error p t) eqn:E; [|exact H].
+  exfalso. rewrite stream_step_generic in H. unfold generic_step, try_index_error in *.
+  destruct p as [s|[l|y]]; try discriminate.
+  - destruct t as [[l|y]|]; try discriminate. destruct y; discriminate.
+  - destruct y; discriminate.
+Qed.
+
+Theorem runs_agree : forall ins st outs fin,
+  asm_run stream_step st ins = (outs, Ok fin) -> asm_run queue_step st ins = (outs, Ok fin).
+Proof.
+  induction ins as [|[p t] ins IH]; intros st outs fin H; simpl in *; [exact H|].
+  destruct (stream_step st p t) as [[st' out]|e] eqn:E; [|inversion H].
+  rewrite (stream_ok_queue_ok _ _ _ _ E).
+  destruct (asm_run stream_step st' ins) as [outs' fin'] eqn:E2. inversion H; subst.
+  rewrite (IH _ _ _ E2). reflexivity.
+Qed.
+
+Theorem runs_equal_without_index_error : forall ins st,
+  Forall (fun l => try_index_error (fst l) (snd l) = false) ins ->
+  asm_run queue_step st ins = asm_run stream_step st ins.
+Proof.
+  induction ins as [|[p t] ins IH]; intros st F; [reflexivity|]. inversion F as [|? ? F1 F2]; subst. simpl in *.
+  rewrite queue_step_eq, F1. destruct (stream_step st p t) as [[st' out]|e]; [|reflexivity].
+  rewrite (IH st' F2). reflexivity.
+Qed.
+
+(* ---------------------------------------------------------------- the front-ends feed the same lines *)
+
+Definition passes_filter (l : byte_line) : Prop := 10 < py_len l /\ should_parse l = true.
+
+Lemma stream_source_id : forall ls, Forall passes_filter ls -> stream_source ls = ls.
+Proof.
+  induction ls as [|l ls IH]; intro F; [reflexivity|]. inversion F as [|? ? [F1 F2] F3]; subst.
+  unfold stream_source in *. simpl. rewrite F2.
+  replace (py_len l <=? 10) with false by (symmetry; apply Z.leb_gt; exact F1). simpl. rewrite IH by exact F3. reflexivity.
+Qed.
+
+Lemma split_after_lf_line : forall l cur rest, ~ In 10 l ->
+  split_after_lf_acc cur (l ++ 10 :: rest) = (rev cur ++ l ++ [10]) :: split_after_lf_acc [] rest.
+Proof.
+  induction l as [|c l IH]; intros cur rest H; simpl.
+  - reflexivity.
+  - destruct (c =? 10) eqn:E; [apply Z.eqb_eq in E; exfalso; apply H; left; auto|].
+    rewrite IH by (intro C; apply H; right; exact C). simpl. rewrite <- app_assoc. reflexivity.
+Qed.
+
+Definition terminated (l : byte_line) : byte_line := l ++ [10].
+
+Lemma split_after_lf_lines : forall ls, Forall (fun l => ~ In 10 l) ls ->
+  split_after_lf (concat (map terminated ls)) = map terminated ls.
+Proof.
+  unfold split_after_lf. induction ls as [|l ls IH]; intro F; [reflexivity|]. inversion F; subst.
+  simpl. unfold terminated at 1. rewrite <- app_assoc. simpl. rewrite split_after_lf_line by assumption.
+  simpl. rewrite IH by assumption. reflexivity.
+Qed.
+
+Lemma passes_filter_terminated : forall l, passes_filter l -> passes_filter (terminated l).
+Proof.
+  intros l [H1 H2]. unfold passes_filter, terminated, py_len in *. rewrite app_length. simpl. split; [lia|].
+  destruct l; [discriminate|exact H2].
+Qed.
+
+(* Every front-end hands the same line list to its loop: lines longer than 10 bytes that start with ! $ or \ and
+   contain no LF (the terminator LF is appended; a CR before it is part of l). *)
+Theorem frontends_agree : forall ls, Forall passes_filter ls -> Forall (fun l => ~ In 10 l) ls ->
+  let lines := map terminated ls in
+  iter_source lines = lines /\ bytestream_source lines = lines /\ binaryio_source (concat lines) = lines /\
+  iter_source ls = ls /\ bytestream_source ls = ls.
+Proof.
+  intros ls F N lines.
+  assert (F' : Forall passes_filter lines).
+  { unfold lines. clear N. induction F; simpl; constructor; auto. apply passes_filter_terminated. assumption. }
+  split; [reflexivity|]. split; [apply stream_source_id; exact F'|]. split.
+  - unfold binaryio_source, lines. rewrite split_after_lf_lines by exact N. apply stream_source_id. exact F'.
+  - split; [reflexivity|apply stream_source_id; exact F].
+Qed.
